@@ -190,6 +190,11 @@ def run(ctx):
         continue
       reasons = list(s.reasons)
       why_ok = None
+      if reasons:
+        okd, whyd = _elementwise_index_delete(fi, s)
+        if okd:
+          reasons = []
+          why_ok = whyd
       if reasons and s.kind == 'positional':
         ok, why = allow(ctx, fi, o, s)
         if ok:
@@ -253,6 +258,47 @@ def tie_rule(ctx):
 
 
 # ------------------------------------------------------------------ allow list
+def _elementwise_index_delete(fi, site):
+  """`del X[i]` where i walks, from the highest index down, a list of indices taken from enumerate(X) by a test on the element
+  alone ([k for k, e in enumerate(X) if P(e)]): the elements removed are chosen one by one by their own values, so the surviving
+  multiset does not depend on the storage order.  Discharges both the traversal over the index list and the positional delete."""
+  fn = fi.node
+  dels = [d for d in ast.walk(site.stmt if site.stmt is not None else site.node) if isinstance(d, ast.Delete)] if site.kind == 'traversal' else []
+  node = site.node
+  cands = []
+  if site.kind == 'positional' and isinstance(node, ast.Subscript) and isinstance(node.ctx, ast.Del):
+    cands.append(node)
+  for d in dels:
+    cands.extend(t for t in d.targets if isinstance(t, ast.Subscript))
+  if site.kind == 'traversal' and not cands:
+    return False, ''
+  for sub in cands:
+    if not isinstance(sub.slice, ast.Name):
+      return False, ''
+    loops = [lp for lp in U.enclosing_loops(fn, sub) if isinstance(lp, ast.For) and isinstance(lp.target, ast.Name) and lp.target.id == sub.slice.id]
+    if not loops:
+      return False, ''
+    it = loops[-1].iter
+    descending = False
+    if isinstance(it, ast.Call) and dotted(it.func) == 'reversed' and len(it.args) == 1:
+      it, descending = it.args[0], True
+    elif isinstance(it, ast.Call) and dotted(it.func) == 'sorted' and any(k.arg == 'reverse' and isinstance(k.value, ast.Constant) and k.value.value is True for k in it.keywords):
+      it, descending = it.args[0], True
+    src = U.expand_locals(fn, it, at=loops[-1])
+    if not (descending and isinstance(src, ast.ListComp) and len(src.generators) == 1):
+      return False, ''
+    g = src.generators[0]
+    if not (isinstance(g.iter, ast.Call) and dotted(g.iter.func) == 'enumerate' and g.iter.args and norm_text(g.iter.args[0]) == norm_text(sub.value) and
+            isinstance(g.target, ast.Tuple) and len(g.target.elts) == 2 and isinstance(g.target.elts[0], ast.Name) and norm_text(src.elt) == g.target.elts[0].id):
+      return False, ''
+    k = g.target.elts[0].id
+    if any(isinstance(x, ast.Name) and x.id == k for f in g.ifs for x in ast.walk(f)):
+      return False, ''
+  if not cands:
+    return False, ''
+  return True, 'the deleted positions are those of the elements that satisfy a test on the element alone (indices from enumerate, removed from the highest down): an element-wise filter'
+
+
 def allow(ctx, fi, o, site):
   name = fi.qualname
   txt = norm_text(site.node)
